@@ -1,6 +1,6 @@
 (* pins for C08: statements of the property theorems as of the time of pinning *)
 From Coq Require Import NArith List Bool.
-From Blue Require Import Refs.Model Refs.Spec Refs.ProofsCount Refs.ProofsTop.
+From Blue Require Import Refs.Model Refs.ModelLock Refs.Spec Refs.ProofsCount Refs.ProofsTop Refs.ProofsLock.
 Import ListNotations.
 Open Scope N_scope.
 From Blue Require Import Refs.Props_C08.
@@ -12,4 +12,7 @@ Check C08_reopen_finds_every_listed_sst : forall evs p rest, s_p (run sys0 evs) 
 Check C08_verifier_unlinks_only_recorded_trash : forall evs ok, let s := run sys0 evs in let s' := step s (EVStep ok) in (forall x, In x (f_trash (s_fs s)) -> ~ In x (f_trash (s_fs s')) -> In (TSst x) (vs_strs (f_vs (s_fs s))) /\ exists m f, vs_m (f_vs (s_fs s)) = Some m /\ In (m, f) (s_frags s) /\ recorded_in f (TSst x)) /\ (forall n, log_has n (f_tlogs (s_fs s)) = true -> log_has n (f_tlogs (s_fs s')) = false -> In (TLog n) (vs_strs (f_vs (s_fs s))) /\ exists m f, vs_m (f_vs (s_fs s)) = Some m /\ In (m, f) (s_frags s) /\ recorded_in f (TLog n)).
 Check C08_verifier_pass_preserves_contents : forall evs vevs, forallb verifier_event vevs = true -> let s := run sys0 evs in let s' := run s vevs in store_view s' = store_view s /\ live_strs s' = live_strs s /\ (forall x, needed s' x -> In x (f_sst (s_fs s'))).
 Check C08_verifier_unlinks_verified_incarnation_outside_known : forall evs, ~ known_by_name sys0 evs -> pending_not_readded (run sys0 evs).
+Check C08_release_callback_under_table_lock_refines_atomic_release : forall evs, exists evs', fst (frun true lsys0 evs) = run sys0 evs'.
+Check C08_needed_not_removed_with_release_callback : forall evs x, needed (fst (frun true lsys0 evs)) x -> In x (f_sst (s_fs (fst (frun true lsys0 evs)))).
+Check C08_needed_not_removed_refuted_without_lock_across_callback : exists evs x, needed (fst (frun false lsys0 evs)) x /\ ~ In x (f_sst (s_fs (fst (frun false lsys0 evs)))).
 Check C08_verifier_unlinks_verified_incarnation_refuted : exists evs, ~ pending_not_readded (run sys0 evs).
